@@ -120,6 +120,10 @@ def main():
                           "encode_object for every table incl. metadata); non-trivial = the bundle "
                           "changed the document or raised")
   explore.explore(rep, "checks.C01", "C01Monitor")
+  # supporting deductive lemma: the column store is a total map row -> value (DESIGN.md 5/C01)
+  from vlib.pysym import runner
+  common.setup_grist_path()
+  runner.run_property(rep, "contracts.L_store", bounded=False, only=["L.store"])
   return rep.finish()
 
 
